@@ -56,6 +56,28 @@ def run(cls, N, steps, rng):
     return None
 
 
+def narrow_first(cls, N):
+    """'unmodified up to the DOCUMENTED storage dtype': the first transition arrives with narrower dtypes (python
+    ints, float32 / int arrays), later ones carry fractional float64 values; storage must have the declared dtype
+    (float for everything except the int 'termination') and return the later values unmodified"""
+    buf = cls(N)
+    buf.add_sample(observation=np.array([1, 2], dtype=np.int64), action=np.array([0], dtype=np.float32), reward=1,
+                   next_observation=np.array([2, 3], dtype=np.int64), termination=0)
+    for k, want in (("observation", np.float64), ("action", np.float64), ("reward", np.float64), ("next_observation", np.float64)):
+        if buf.buffer[k].dtype != want:
+            return f"storage of {k!r} has dtype {buf.buffer[k].dtype} after a first transition with a narrower dtype, documented {np.dtype(want)}"
+    t = dict(observation=np.array([0.625, 1.375]), action=np.array([0.1 + 1e-12]), reward=0.625, next_observation=np.array([2.125, 0.875]), termination=1)
+    for _ in range(N):
+        buf.add_sample(**t)  # now every slot holds t
+    out = buf.sample_batch(2, np.random.default_rng(1))
+    batch = out[0] if isinstance(out, tuple) and not hasattr(out, "_fields") else out
+    for k in ("observation", "action", "reward", "next_observation"):
+        got = np.asarray(batch._asdict()[k] if hasattr(batch, "_asdict") else getattr(batch, k))[0]
+        if not np.allclose(np.asarray(got, dtype=np.float64), np.asarray(t[k], dtype=np.float32), rtol=0, atol=1e-6):
+            return f"field {k!r} of a stored transition comes back as {got!r}, stored {t[k]!r} (first transition had a narrower dtype)"
+    return None
+
+
 def multitask(p):
     """obligations of the multi-task wrapper (contracts/multitask.py): bounded native check of the same
     clauses on the real MultiTaskReplayBuffer over real ReplayBuffer / LAP / PrioritizedReplayBuffer instances"""
@@ -80,6 +102,12 @@ def main():
     for cls in (ReplayBuffer, LAP, PrioritizedReplayBuffer):
         if cls.__name__ not in p["obligation"] and "ReplayBuffer." in p["obligation"] and cls is not ReplayBuffer:
             continue
+        try:
+            bad = narrow_first(cls, 3)
+        except Exception as e:
+            bad = f"{type(e).__name__}: {e}"
+        if bad:
+            done(True, dict(cls=cls.__name__, capacity=3, what=bad))
         for N in caps:
             try:
                 bad = run(cls, N, 3 * N + 3, rng)
